@@ -691,11 +691,16 @@ def read_data(
         else:
             return data
     else:
+        if isinstance(reader_schema, dict):
+            # the matching reader schema is an inline definition, not a name
+            named_reader_schema = reader_schema
+        else:
+            named_reader_schema = named_schemas["reader"].get(reader_schema)
         return read_data(
             decoder,
             named_schemas["writer"][record_type],
             named_schemas,
-            named_schemas["reader"].get(reader_schema),
+            named_reader_schema,
             options,
         )
 
